@@ -12,13 +12,12 @@ Definition targets (c : cfg) (G : sgraph) (O : oracles) (pass : nat) (m : tmode1
   | MShapeMap items => collect G O 1 2 (c_tau c) (-1) items
   end.
 
-(** the mode is one the theorems cover: some target class / some class at the
-    endpoint / selectors that denote subjects *)
-Definition mode_ok (c : cfg) (G : sgraph) (m : tmode15) : Prop :=
+(** the mode is one the theorems cover: any class mode; shape maps whose
+    selectors denote subjects *)
+Definition mode_ok (m : tmode15) : Prop :=
   match m with
-  | MClasses cl => cl <> []
-  | MAll => plain (c_tau c) = true /\ exists t, In t G /\ sp t = c_tau c
   | MShapeMap items => forallb sel_plain items = true
+  | _ => True
   end.
 
 (** pass 1 reads the whole stream (no early stop of the instance tracker) *)
@@ -28,49 +27,45 @@ Definition reads_all (c : cfg) (m : tmode15) : Prop :=
   | _ => True
   end.
 
-Lemma all_classes_nonempty G O pass tau :
-  ord_ok O -> plain tau = true -> (exists t, In t G /\ sp t = tau) -> all_classes G O pass tau <> [].
-Proof.
-  intros [Ho _] Hp [t [Ht Es]]. unfold all_classes. rewrite (rc_false_plain _ Hp).
-  assert (Hin : In t (o_ord O pass (classes_query tau) (tau_match G tau))).
-  { apply (Permutation_in _ (Permutation_sym (Ho _ _ _))). unfold tau_match. apply filter_In.
-    split; auto. rewrite Es. apply str_eqb_refl. }
-  destruct (o_ord O pass (classes_query tau) (tau_match G tau)) as [|x l]; [destruct Hin|].
-  cbn. discriminate.
-Qed.
-
-Lemma mode_pcls c G O m : ord_ok O -> mode_ok c G m ->
-  match m with
-  | MClasses cl => forall pass, pcls G c O pass false cl <> []
-  | MAll => forall pass, pcls G c O pass true [] <> []
-  | MShapeMap _ => True
-  end.
-Proof.
-  intros Ho Hm. destruct m; cbn in *; auto.
-  destruct Hm as [Hp Ht]. intros pass. apply all_classes_nonempty; auto.
-Qed.
-
 (** (a) *)
 Lemma C15a c G O m :
-  ord_ok O -> dom c G -> mode_ok c G m ->
+  ord_ok O -> dom c G -> mode_ok m ->
   let r := run c m G O in
   r_ok r = true /\
-  Permutation (yields (r_p2 r)) (local_graph (neighbourhood (c_inverse c) (targets c G O 2 m) G)) /\
+  Permutation (yields (r_p2 r)) (local_graph (touching (c_inverse c) (targets c G O 2 m) G)) /\
   match m with
   | MShapeMap _ => yields (r_p1 r) = []
   | _ => exists full1,
-      Permutation full1 (local_graph (neighbourhood (c_inverse c) (targets c G O 1 m) G)) /\
+      Permutation full1 (local_graph (touching (c_inverse c) (targets c G O 1 m) G)) /\
       (yields (r_p1 r) = full1 \/
        ((0 < c_cap c)%Z /\ ~ reads_all c m /\ exists n, yields (r_p1 r) = firstn n full1))
   end.
 Proof.
-  intros Ho Hd Hm. pose proof (mode_pcls c G O m Ho Hm) as Hp. destruct m as [cl| |items]; cbn [targets reads_all].
-  - destruct (triples_class c G O false cl Ho Hd Hp) as [A [B [f [C D]]]]. split; [exact A|]. split; [exact B|].
+  intros Ho Hd Hm. destruct m as [cl| |items]; cbn [targets reads_all].
+  - destruct (triples_class c G O false cl Ho Hd) as [A [B [f [C D]]]]. split; [exact A|]. split; [exact B|].
     exists f. split; [exact C|]. destruct D as [D|[D1 [_ D3]]]; [left; exact D | right].
     split; [exact D1|]. split; [lia | exact D3].
-  - destruct (triples_class c G O true [] Ho Hd Hp) as [A [B [f [C D]]]]. split; [exact A|]. split; [exact B|].
+  - destruct (triples_class c G O true [] Ho Hd) as [A [B [f [C D]]]]. split; [exact A|]. split; [exact B|].
     exists f. split; [exact C|]. destruct D as [D|[_ [D2 _]]]; [left; exact D | discriminate].
   - destruct (triples_map c G O items Ho Hd Hm) as [A [B [C _]]]. auto.
+Qed.
+
+Lemma NoDup_map_filter {A B} (g : A -> B) (f : A -> bool) (l : list A) :
+  NoDup (map g l) -> NoDup (map g (filter f l)).
+Proof.
+  induction l as [|x l IH]; cbn; intros H; [constructor|]. inversion H; subst.
+  destruct (f x); cbn; auto. constructor; auto.
+  intros Hin. apply H2. apply in_map_iff in Hin. destruct Hin as [y [E Hy]].
+  apply filter_In in Hy. rewrite <- E. apply in_map. tauto.
+Qed.
+
+(** each statement is delivered once *)
+Lemma C15a_nodup c G O m :
+  ord_ok O -> dom c G -> mode_ok m -> NoDup (yields (r_p2 (run c m G O))).
+Proof.
+  intros Ho Hd Hm. destruct (C15a c G O m Ho Hd Hm) as [_ [P _]].
+  eapply Permutation_NoDup; [apply Permutation_sym; exact P|].
+  destruct Hd as [_ Hn]. unfold local_graph, touching in *. apply NoDup_map_filter. exact Hn.
 Qed.
 
 (** without a LIMIT the targets of the class modes are the instances of the classes *)
@@ -84,15 +79,15 @@ Qed.
 
 (** (b) *)
 Lemma C15b c G O m :
-  ord_ok O -> dom c G -> mode_ok c G m ->
+  ord_ok O -> dom c G -> mode_ok m ->
   let rc := run (with_cache true c) m G O in
   let rn := run (with_cache false c) m G O in
   Permutation (yields (r_p2 rc)) (yields (r_p2 rn)) /\
   (reads_all c m -> Permutation (yields (r_p1 rc)) (yields (r_p1 rn))).
 Proof.
-  intros Ho Hd Hm. pose proof (mode_pcls c G O m Ho Hm) as Hp. destruct m as [cl| |items]; cbn [reads_all].
-  - destruct (cache_same_class c G O false cl Ho Hd Hp) as [A B]. split; [exact A|]. intros H. apply B. auto.
-  - destruct (cache_same_class c G O true [] Ho Hd Hp) as [A B]. split; [exact A|]. intros H. apply B. auto.
+  intros Ho Hd Hm. destruct m as [cl| |items]; cbn [reads_all].
+  - destruct (cache_same_class c G O false cl Ho Hd) as [A B]. split; [exact A|]. intros H. apply B. auto.
+  - destruct (cache_same_class c G O true [] Ho Hd) as [A B]. split; [exact A|]. intros H. apply B. auto.
   - destruct (cache_log_map c G O items Ho Hd Hm) as [_ A]. split; [exact A|]. intros _.
     destruct (triples_map (with_cache true c) G O items Ho Hd Hm) as [_ [E1 _]].
     destruct (triples_map (with_cache false c) G O items Ho Hd Hm) as [_ [E2 _]].
@@ -101,16 +96,16 @@ Qed.
 
 (** (c) *)
 Lemma C15c c G O m :
-  ord_ok O -> dom c G -> mode_ok c G m -> reads_all c m ->
+  ord_ok O -> dom c G -> mode_ok m -> reads_all c m ->
   let rc := run (with_cache true c) m G O in
   let rn := run (with_cache false c) m G O in
   subseq (log_of rc) (log_of rn) /\
   List.length (log_of rc) <= List.length (log_of rn) /\
   NoDup (filter is_fetch (log_of rc)).
 Proof.
-  intros Ho Hd Hm Hr. pose proof (mode_pcls c G O m Ho Hm) as Hp. destruct m as [cl| |items]; cbn [reads_all] in Hr.
-  - apply (cache_log_class c G O false cl Ho Hd Hp). left. exact Hr.
-  - apply (cache_log_class c G O true [] Ho Hd Hp). right. reflexivity.
+  intros Ho Hd Hm Hr. destruct m as [cl| |items]; cbn [reads_all] in Hr.
+  - apply (cache_log_class c G O false cl Ho Hd). left. exact Hr.
+  - apply (cache_log_class c G O true [] Ho Hd). right. reflexivity.
   - destruct (cache_log_map c G O items Ho Hd Hm) as [E _]. cbn zeta. rewrite E.
     split; [apply subseq_refl|]. split; [lia|].
     destruct (triples_map (with_cache false c) G O items Ho Hd Hm) as [_ [_ [_ Q]]].
@@ -130,19 +125,17 @@ Qed.
 
 (** (d) *)
 Lemma C15d c G O m I :
-  ord_ok O -> dom c G -> mode_ok c G m ->
+  ord_ok O -> dom c G -> mode_ok m ->
   let r := run c m G O in
   let T := targets c G O 2 m in
   (forall id, Profiler.tracked I id = mem_str id T) ->
-  Permutation (yields (r_p2 r))
-              (filter (rel (c_inverse c) I) (local_graph G) ++
-               local_graph (filter (fun t => subj_in T t && obj_in T t) (if c_inverse c then G else []))) /\
+  Permutation (yields (r_p2 r)) (filter (rel (c_inverse c) I) (local_graph G)) /\
   annotate_all (c_tau c) (c_inverse c) (local_graph G) I =
   annotate_all (c_tau c) (c_inverse c) (filter (rel (c_inverse c) I) (local_graph G)) I.
 Proof.
-  intros Ho Hd Hm. pose proof (mode_pcls c G O m Ho Hm) as Hp. destruct m as [cl| |items]; cbn [targets].
-  - apply (equals_local_class c G O false cl I Ho Hd Hp).
-  - apply (equals_local_class c G O true [] I Ho Hd Hp).
+  intros Ho Hd Hm. destruct m as [cl| |items]; cbn [targets].
+  - apply (equals_local_class c G O false cl I Ho Hd).
+  - apply (equals_local_class c G O true [] I Ho Hd).
   - apply (equals_local_map c G O items I Ho Hd Hm).
 Qed.
 
@@ -194,4 +187,27 @@ Proof.
   induction l as [|x l IH]; cbn; intros H Hn; [discriminate|]. inversion Hn; subst.
   apply andb_false_iff in H. destruct H as [H|H]; [|apply IH; auto].
   apply negb_false_iff in H. apply H2. apply in_triple_b. exact H.
+Qed.
+
+(** since fix c9a1e70 (targets collected in an insertion-ordered dict) the
+    fetch order is the order of first occurrence of the nodes in the selector
+    answers: no set oracle is left *)
+Lemma targets_first_occurrence c G O pass m :
+  targets c G O pass m =
+  dedup str_eqb (flat_map (sel_answers G O (match m with MShapeMap _ => 1 | _ => pass end) (c_tau c)
+                                       (match m with MShapeMap _ => (-1)%Z | _ => eff_limit c end))
+                          (match m with
+                           | MClasses cl => class_items cl
+                           | MAll => class_items (all_classes G O pass (c_tau c))
+                           | MShapeMap items => items
+                           end)).
+Proof. destruct m; reflexivity. Qed.
+
+Lemma fetch_order_map c G O items :
+  ord_ok O -> dom c G -> forallb sel_plain items = true ->
+  let T := dedup str_eqb (flat_map (sel_answers G O 1 (c_tau c) (-1)) items) in
+  queries (r_p2 (run c (MShapeMap items) G O)) =
+  map (fun a => (QPO, a)) T ++ (if c_inverse c then map (fun a => (QSP, a)) T else []).
+Proof.
+  intros Ho Hd Hit. destruct (triples_map c G O items Ho Hd Hit) as [_ [_ [_ Q]]]. exact Q.
 Qed.
